@@ -159,6 +159,15 @@ func RunSharded(r *ev.Run, n int, crashIsViolation bool, extra ...string) {
 				tail = tail[:4000]
 			}
 			r.Incomplete(fmt.Sprintf("shard %d/%d died", i, n))
+			if crashIsViolation && label != "" && !confirmDeath(r, label, data, work, i) {
+				// the case the worker had marked runs to completion on its own: the death was not
+				// caused by the library on this input (memory pressure from outside, a kill): a
+				// harness error, never a VIOLATION
+				fmt.Printf("HARNESS-ERROR: worker %d of %s died (%v: %s) but the case it was executing completes when re-run alone\n", i, r.ID, err, first)
+				r.Set("harness_error", fmt.Sprintf("worker %d: %v %s (not reproduced)", i, err, first))
+				harnessFailed = true
+				return
+			}
 			if crashIsViolation && label != "" {
 				r.Violation("process-death:"+sigWords(first), "the process died while executing a case: "+first,
 					map[string]any{"label": label, "input_hex": ev.Hex(data), "stderr": string(tail)})
@@ -170,6 +179,36 @@ func RunSharded(r *ev.Run, n int, crashIsViolation bool, extra ...string) {
 		}(i)
 	}
 	wg.Wait()
+}
+
+// confirmDeath re-runs, in a fresh process and alone, the case a dead worker had marked (deviation
+// explorer marks: "target|seed|deviation" + the input bytes). It returns true if the case again
+// fails to complete normally (the process dies, hangs for two minutes, or reports a violation).
+func confirmDeath(r *ev.Run, label string, data []byte, work string, i int) bool {
+	parts := strings.SplitN(label, "|", 3)
+	if len(parts) != 3 {
+		return true // not a case this function knows how to replay: believe the death
+	}
+	c := map[string]any{"case": devCase{Target: parts[0], Seed: parts[1], Dev: parts[2], Hex: ev.Hex(data), Len: len(data)}}
+	b, _ := json.Marshal(c)
+	path := filepath.Join(work, fmt.Sprintf("confirm.%s.%d.json", r.ID, i))
+	if os.WriteFile(path, b, 0o644) != nil {
+		return true
+	}
+	out := filepath.Join(work, fmt.Sprintf("confirm.%s.%d.out", r.ID, i))
+	os.MkdirAll(out, 0o755)
+	ctx, cancel := context.WithTimeout(context.Background(), 2*time.Minute)
+	defer cancel()
+	cmd := exec.CommandContext(ctx, os.Args[0], r.ID, r.Tier, "--replay", path)
+	cmd.Env = append(os.Environ(), "VERIF_OUT_DIR="+out, "GOMAXPROCS=1", "GOMEMLIMIT=3GiB")
+	o, err := cmd.CombinedOutput()
+	if ctx.Err() != nil || strings.Contains(string(o), "VIOLATION") {
+		return true
+	}
+	if ee, ok := err.(*exec.ExitError); ok && ee.ExitCode() > 1 || err != nil && !strings.Contains(string(o), "replay ") {
+		return true
+	}
+	return false
 }
 
 var harnessFailed bool
